@@ -40,14 +40,15 @@ Print Assumptions roots_cycle_iff.
 
 (* Without such a cycle Roots() succeeds; the result has no duplicates, contains
    every registered root and only roots reachable from them, every root a registered
-   root depends on (directly or not) comes strictly before it, and when every
-   dependency is registered the result is a permutation of the registered roots. *)
+   root depends on (directly or not) comes strictly before it (provided no root that is
+   only a dependency lies on a cycle), and when every dependency is registered the
+   result is a permutation of the registered roots. *)
 Theorem roots_topological n deps regs :
   (forall x d, In d (deps x) -> d < n) -> (forall r, In r regs -> r < n) ->
   ~ cyclic deps regs ->
   exists l, roots n deps regs = Ok l /\ NoDup l /\ incl regs l /\
     (forall x, In x l -> exists r, In r regs /\ reach deps r x) /\
-    (forall u v, In u regs -> reach deps u v -> u <> v -> before l v u) /\
+    (cycles_among deps regs -> forall u v, In u regs -> reach deps u v -> u <> v -> before l v u) /\
     (closed_under deps regs -> NoDup regs -> Permutation regs l).
 Proof. exact (roots_topological_l n deps regs). Qed.
 Print Assumptions roots_topological.
@@ -156,27 +157,31 @@ Print Assumptions appended_later_set_executed_partial.
 (* Within one phase no callback of a root runs before a callback of a root it depends on
    (directly or not) - in the execute phase, across all execution rounds, for the roots
    registered before RunDSL; in the Prepare, Validate and Finalize phases for every root
-   registered when the execution loop ends.  Any program. *)
+   registered when the execution loop ends.  Any program whose dependency cycles, if any,
+   lie among the roots registered up front (a root that is only a dependency of others,
+   or is registered later, is not on a cycle). *)
 Theorem dependency_order_partial p :
+  cycles_among (deps_of p) (s_regs (init_state p)) ->
   StronglySorted (dep_ok (deps_of p) (claimed_roots p)) (fst (run_dsl p)).
 Proof. exact (dependency_order_l p). Qed.
 Print Assumptions dependency_order_partial.
 
 Theorem dependency_order_pairs_partial p t1 a t2 b t3 :
+  cycles_among (deps_of p) (s_regs (init_state p)) ->
   fst (run_dsl p) = t1 ++ a :: t2 ++ b :: t3 -> ev_phase a = ev_phase b ->
   In (ev_root a) (claimed_roots p (ev_phase a)) -> reach (deps_of p) (ev_root a) (ev_root b) ->
   ev_root a = ev_root b.
 Proof. exact (dependency_order_pairs_l p t1 a t2 b t3). Qed.
 Print Assumptions dependency_order_pairs_partial.
 
-(* The full statement (execute phase too, for every root registered at the end) is false
-   of the faithful model: a root that is executed as a mere dependency before it is
-   registered is ordered as if it had no dependencies. *)
-Theorem dependency_order_refuted :
-  exists p, snd (run_dsl p) = Done /\
-    ~ StronglySorted (dep_ok (deps_of p) (final_roots p)) (fst (run_dsl p)).
-Proof. exists witness_late_dep. destruct witness_late_dep_l as (A & _ & C). split; assumption. Qed.
-Print Assumptions dependency_order_refuted.
+(* Since the final sort of Roots() follows DependsOn() of roots that are not registered,
+   the former counterexample (a root executed as a dependency before its registration) is
+   ordered correctly; the full statement for roots registered DURING the run is neither
+   refuted nor proved here - the direct oracle checks it on every run. *)
+Example late_dependency_ordered :
+  map ev_root (filter (fun e => match ev_phase e with Exec => true | _ => false end)
+     (fst (run_dsl witness_late_dep))) = [0; 3; 2; 1] /\ snd (run_dsl witness_late_dep) = Done.
+Proof. vm_compute. split; reflexivity. Qed.
 
 (* ---------------------------------------------------------------- generator.Generate *)
 
@@ -187,7 +192,8 @@ Theorem generate_handover_dependency_order p ls : handover p = Some ls ->
   exists l, ls = [l; l; l] /\ generate_roots p = Ok l /\ NoDup l /\
     incl (s_regs (final_state p)) l /\
     (forall x, In x l -> exists r, In r (s_regs (final_state p)) /\ reach (deps_of p) r x) /\
-    (forall u v, In u (s_regs (final_state p)) -> reach (deps_of p) u v -> u <> v -> before l v u).
+    (cycles_among (deps_of p) (s_regs (final_state p)) ->
+     forall u v, In u (s_regs (final_state p)) -> reach (deps_of p) u v -> u <> v -> before l v u).
 Proof. exact (handover_order_l p ls). Qed.
 Print Assumptions generate_handover_dependency_order.
 
